@@ -163,6 +163,7 @@ def run_history(pym, spec, ops):
             return last[-1][2], c
         return pers[i][j], c
 
+    ctx = {'alloc': False}   # does the current operation have to create the base sensitivity through a slice?
     last = []   # freshly created slice objects used by the current operation: read through them as well
 
     def observe(all_fresh=False):
@@ -186,6 +187,7 @@ def run_history(pym, spec, ops):
     def step(op):
         f = None
         name = op[0]
+        ctx['alloc'] = False
         if name == 'state':
             _, i, j, fresh, v = op
             t, c = tgt(i, j, fresh)
@@ -196,6 +198,7 @@ def run_history(pym, spec, ops):
             _, i, j, fresh, v = op
             t, c = tgt(i, j, fresh)
             val = dec(v)
+            ctx['alloc'] = c is not None and val is not None and refs[i].sens is None
             t.sensitivity = cp(val)
             refs[i].set_sens(c, cp(val))
         elif name in ('add', 'add2'):
@@ -204,6 +207,7 @@ def run_history(pym, spec, ops):
             ds0 = cp(ds)
             for (i, j, fresh) in targets:
                 t, c = tgt(i, j, fresh)
+                ctx['alloc'] = c is not None and ds is not None and refs[i].sens is None
                 t.add_sensitivity(ds)
                 refs[i].add(c, ds0)
                 if ds is not None and not same(ds, ds0):
@@ -236,7 +240,7 @@ def run_history(pym, spec, ops):
             f = step(op)
             f = f or observe(k == len(ops) - 1)
         except Exception as e:
-            f = dict(what=f'admissible operation (or the read after it) raised {type(e).__name__}: {str(e)[:160]}')
+            f = dict(what=f'admissible operation (or the read after it) raised {type(e).__name__}: {str(e)[:160]}', alloc_through_slice=ctx['alloc'])
         if f:
             return dict(f, op_index=k, op=op)
     return None
